@@ -118,6 +118,12 @@ void vh_error_fn(const char *message, void *arg, vnaerr_category_t category)
     else
 	++vh_cb_errors;
     vh_cb_last_category = category;
+    /* the message is a single line (vnaerr(3)): every line break in it counts as one more report */
+    for (const char *p = message; *p != '\000'; ++p) {
+	if (*p == '\n') {
+	    if (category == VNAERR_WARNING) ++vh_cb_warnings; else ++vh_cb_errors;
+	}
+    }
     snprintf(vh_cb_last_msg, sizeof(vh_cb_last_msg), "%s", message);
     if (getenv("VH_VERBOSE") != NULL)
 	fprintf(stderr, "vh: callback[%d]: %s\n", (int)category, message);
